@@ -234,6 +234,12 @@ def run(ctx):
         ctx.coverage["growth_commands"] = grow_commands.run_growth(ctx)
     except Exception as e:   # a failing growth run is a machinery problem of the informing part only
         ctx.notes.append("commands growth failed: %s" % str(e)[:300])
+    # growth: MQTT data handler (spec/MqttHandler.tla) on the real MqttHandler with a fake MqttClient; notes only
+    try:
+        from checks import grow_mqtt
+        ctx.coverage["growth_mqtt"] = grow_mqtt.run_growth(ctx)
+    except Exception as e:
+        ctx.notes.append("mqtt growth failed: %s" % str(e)[:300])
     ctx.assumptions = [
         "TLC evaluates the TLA+ definitions correctly; the harness logs what the daemon answered and what the fake transport was asked to write",
         "the hand-over to the bus thread is replaced by in-line stepping of the real handleSend/handleReceive "
